@@ -14,7 +14,7 @@
 From PV Require Import Base.Outcome Base.Prim Spec.PrimSpec Spec.C05Line Spec.C05Header
   Model.C05Kinds Model.C05LineProgram Model.C05Header Gen.C05Tables
   Proofs.C05Leb Proofs.C05Tables Proofs.C05Machine Proofs.C05Header Proofs.C05Unit
-  Proofs.C05Program Proofs.C05Encoder.
+  Proofs.C05Program Proofs.C05Encoder Proofs.C05Total.
 Open Scope list_scope.
 Open Scope Z_scope.
 
@@ -49,6 +49,15 @@ Theorem C05_gen_forms_standard : forall f,
   form_lookup tbl_c05_forms (lform_code f) = Some (spec_form_name f, spec_form_kind f).
 Proof. exact gen_forms_standard. Qed.
 Print Assumptions C05_gen_forms_standard.
+
+(* the members of Dwarf_lineprog_header and Dwarf_lineprog_file_entry, walked from the live construct
+   objects for every byte order, format and address size (every lambda probed: version thresholds,
+   else values, array counts, terminating predicates): names, order, widths, signedness and
+   conditions are those of DWARF 6.2.4, which Model/C05Header.parse_header reads one by one *)
+Theorem C05_gen_header_layout :
+  gen_c05_header = spec_header_layout /\ gen_c05_file_entry = spec_file_entry_layout.
+Proof. exact gen_header_layout_standard. Qed.
+Print Assumptions C05_gen_header_layout.
 
 (* ================================================================ 2. the state machine *)
 (* one iteration of the decoding loop on ANY valid encoding [e] of instruction [i], followed by
@@ -87,6 +96,14 @@ Theorem C05_rows_equal : forall c p apnd, wf_params p = true -> forall prog bs p
   rows_model c p apnd (pre ++ bs ++ tail) (zlen pre) (zlen pre + zlen bs) = Ok (rows_spec p prog).
 Proof. exact rows_equal. Qed.
 Print Assumptions C05_rows_equal.
+
+(* on ARBITRARY streams and extents (valid program or not) every loop iteration consumes input or
+   fails with a library error, so the model's fuel is never the reason for a result: the model
+   describes _decode_line_program totally *)
+Theorem C05_decode_total : forall c h apnd sec start end_,
+  decode_line_program c h apnd sec start end_ <> Err EFuel.
+Proof. exact decode_line_program_total. Qed.
+Print Assumptions C05_decode_total.
 
 (* the relation is inhabited by the executable encoder the correspondence uses: any instruction
    list passing the boolean check, any padding choice *)
